@@ -98,7 +98,7 @@ struct SetCase {
 
 pub fn run(tier: Tier) -> i32 {
     let rep = Report::new("C10", tier, "model_checking");
-    rep.set_rule("SCOPE: voice sets {V0; V0+P1; V0+P1+P2; V0+P1+P2+P3; V0+V0; generated pairs/triples with different trees incl. coarse-then-fine and fine-then-coarse orders; sets of 5..10 generated voices (thorough: up to 33) with ten weight vectors each (vertices, equal, ramps, tail-only, extrapolating, dyadic)} x weight vectors on the quarter-step simplex lattice incl. vertices and components in [-1/4,3/2], plus far extrapolations such as (2.5,-1.5), (1.25,1.25,-1.5), (1,.5,-.5), (.5,0,.5) x which of the 1+2*streams quantities (duration, parameter[i], gv[i]) deviate from equal weights (<= 2 at a time, the second with the reversed vector; plus whole groups moved together: duration+parameters, all GV, all parameters, all but duration, all) x labels (cover set Lambda + corpus windows); oracle: Models::duration / model_stream(i).stream / .gv equal sum_v w_v x that voice's own Model::get_parameter (rel 1e-12 incl. voicing weight); weights (1,0,..) reproduce the single-voice parameters and waveform bit-exactly; identical voices reproduce the single voice (parameters 1e-12, waveform 1e-6 of peak); distinct = (voice set, weight vector, deviating quantities); non-trivial = more than one voice");
+    rep.set_rule("SCOPE: voice sets {V0; V0+P1; V0+P1+P2; V0+P1+P2+P3; V0+V0; a generated voice with a copy that differs in the voicing weights only; generated pairs/triples with different trees incl. coarse-then-fine and fine-then-coarse orders; sets of 5..10 generated voices (thorough: up to 33) with ten weight vectors each (vertices, equal, ramps, tail-only, extrapolating, dyadic)} x weight vectors on the quarter-step simplex lattice incl. vertices and components in [-1/4,3/2], plus far extrapolations such as (2.5,-1.5), (1.25,1.25,-1.5), (1,.5,-.5), (.5,0,.5) x which of the 1+2*streams quantities (duration, parameter[i], gv[i]) deviate from equal weights (<= 2 at a time, the second with the reversed vector; plus whole groups moved together: duration+parameters, all GV, all parameters, all but duration, all) x labels (cover set Lambda + corpus windows); oracle: Models::duration / model_stream(i).stream / .gv equal sum_v w_v x that voice's own Model::get_parameter (rel 1e-12 incl. voicing weight); weights (1,0,..) reproduce the single-voice parameters and waveform bit-exactly; identical voices reproduce the single voice (parameters 1e-12, waveform 1e-6 of peak); distinct = (voice set, weight vector, deviating quantities); non-trivial = more than one voice");
     rep.assume("weights on the quarter-step lattice; each voice's own tree selection is taken from Model::get_parameter (validated against the independent reader by C04)");
     let corpus = labels::corpus();
     let lam = labels::lambda(&corpus);
@@ -127,6 +127,21 @@ pub fn run(tier: Tier) -> i32 {
         sets.push(SetCase { name: "G coarse + fine".into(), voices: vec![coarse.clone(), fine0.clone()], nstream: 3, nstate: 2, identical: false });
         sets.push(SetCase { name: "G fine + coarse".into(), voices: vec![fine0.clone(), coarse.clone()], nstream: 3, nstate: 2, identical: false });
         sets.push(SetCase { name: "G coarse + fine(other questions) + fine".into(), voices: vec![coarse, fine1, fine0], nstream: 3, nstate: 2, identical: false });
+    }
+    // voices that agree in every mean and variance and differ in the voicing weights only (and the reverse order)
+    {
+        let cfg = GenCfg { gv: true, nstate: 2, ..GenCfg::default() };
+        let a = Arc::new(load_voice_bytes(&cfg.bytes()).expect("generated voice"));
+        let mut spec = cfg.spec();
+        for (_, _, pdfs) in spec.streams[1].model.trees.iter_mut() {
+            for p in pdfs.iter_mut() {
+                let w = p.last_mut().unwrap();
+                *w = 0.5 * *w + 0.01;
+            }
+        }
+        let b = Arc::new(load_voice_bytes(&crate::gen::voice::write(&spec)).expect("generated voice with other voicing weights"));
+        sets.push(SetCase { name: "G + copy with other voicing weights only".into(), voices: vec![a.clone(), b.clone()], nstream: cfg.ns, nstate: cfg.nstate, identical: false });
+        sets.push(SetCase { name: "G copy with other voicing weights + G + copy".into(), voices: vec![b.clone(), a, b], nstream: cfg.ns, nstate: cfg.nstate, identical: false });
     }
     // beyond the stated sets: 5..10 (thorough: 17, 33) generated voices at once
     for nv in tier.pick(vec![5usize, 6, 7, 8, 9, 10], vec![5, 6, 7, 8, 9, 10, 12, 13, 16, 17, 33]) {
